@@ -365,6 +365,64 @@ func runC11(c *Ctx) {
 			}
 		}
 	}
+	if !digOK {
+		// the digest encoded into lane 0's fresh block, and every other lane (an index loop from 1 to the end of the
+		// batch) a fresh block filled by copy from lane 0
+		fresh := "slice(alloc<[243]int8>, 0, alt(243, none))"
+		var enc0 ssa.CallInstruction
+		var root ssa.Value
+		for _, ci := range ana.CallsTo(search, "github.com/iotaledger/iota.go/encoding/b1t6.Encode") {
+			if bd, ok := ana.Match("call<*>(load(iaddr($buf, 0)), "+PD+")", sb.CallTermAt(ci)); ok && bd["$buf"].V != nil {
+				if w, _ := ana.Find("store(iaddr(_, 0), "+fresh+")", bd["$buf"]); w != nil {
+					enc0, root = ci, sb.Root(bd["$buf"].V)
+				}
+			}
+		}
+		if enc0 != nil {
+			for _, ce := range sb.CondEdges() {
+				bd, ok := ana.Match("bin<<>(bin<->(ind<+1>(0), len($B)), -1)", ce.Lit) // i := 1; i < len(batch)
+				if !ok || !ce.Taken || bd["$B"].V == nil || sb.Root(bd["$B"].V) != root || !enc0.Block().Dominates(ce.From) {
+					continue
+				}
+				var back []ana.Edge
+				for _, e := range ana.BackEdges(search) {
+					if e.To == ce.From {
+						back = append(back, e)
+					}
+				}
+				if len(back) != 1 {
+					continue
+				}
+				inBody := func(i ssa.Instruction) bool {
+					return ce.To.Dominates(i.Block()) && i.Block().Dominates(back[0].From)
+				}
+				stOK, cpOK := false, false
+				for _, blk := range search.Blocks {
+					for _, ins := range blk.Instrs {
+						switch x := ins.(type) {
+						case *ssa.Store:
+							if bd2, m := ana.Match("iaddr($buf, ind<+1>(1))", sb.Of(x.Addr, x)); m && inBody(x) && bd2["$buf"].V != nil && sb.Root(bd2["$buf"].V) == root && matches(fresh, sb.Of(x.Val, x)) {
+								stOK = true
+							}
+						case ssa.CallInstruction:
+							if bd2, m := ana.Match("call<builtin.copy>(load(iaddr($d, ind<+1>(1))), load(iaddr($s, 0)))", sb.CallTermAt(x)); m && inBody(x) &&
+								bd2["$d"].V != nil && bd2["$s"].V != nil && sb.Root(bd2["$d"].V) == root && sb.Root(bd2["$s"].V) == root {
+								// the destination is this iteration's fresh block (stored before the copy, unconditionally)
+								if d := bd2["$d"]; d.Op == "slice" && d.Arg(0).Op == "obj" {
+									for _, ev := range d.Arg(0).Args[1:] {
+										if matches("store(iaddr(self, ind<+1>(1)), "+fresh+")", ev) {
+											cpOK = true
+										}
+									}
+								}
+							}
+						}
+					}
+				}
+				digOK = digOK || stOK && cpOK
+			}
+		}
+	}
 	nEnc := len(ana.CallsTo(search, "github.com/iotaledger/iota.go/encoding/b1t6.Encode"))
 	r.Check(digOK && nEnc == 1, "C11.nonce-layout.lane-digest", c.P.Pos(search.Pos()), "every one of the 64 lane buffers (a range loop over the whole batch) is a fresh 243-trit block into which the digest is b1t6-encoded at trit 0 (Encode sites: %d)", nEnc)
 	r.Check(fill, "C11.nonce-layout.lane-filling", c.P.Pos(search.Pos()), "lane i of every batch is given nonce base+i, encoded at trit offset EncodedLen(len(digest))")
